@@ -75,6 +75,42 @@ func collectMapOps(fns []*ssa.Function) []*mapOps {
 	return out
 }
 
+// mapValuesNonNil: every value put into the tracked map field mk, anywhere in the package, is non-nil by
+// construction (the address of a fresh allocation), and there is at least one such insert.
+func mapValuesNonNil(ops []*mapOps, mk string) bool {
+	n := 0
+	for _, mo := range ops {
+		for _, u := range mo.updates {
+			if k, _ := trackedMapField(u.Map); k != mk {
+				continue
+			}
+			n++
+			if !nonNilByConstruction(u.Value, 0) {
+				return false
+			}
+		}
+	}
+	return n > 0
+}
+
+func nonNilByConstruction(v ssa.Value, d int) bool {
+	if d > 4 {
+		return false
+	}
+	switch x := resolveVal(v).(type) {
+	case *ssa.Alloc, *ssa.FieldAddr, *ssa.IndexAddr, *ssa.MakeMap, *ssa.MakeChan, *ssa.MakeClosure, *ssa.Function:
+		return true
+	case *ssa.Phi:
+		for _, e := range x.Edges {
+			if !nonNilByConstruction(e, d+1) {
+				return false
+			}
+		}
+		return len(x.Edges) > 0
+	}
+	return false
+}
+
 // mapLook is a comma-ok lookup of the entry stored under a key, either a direct
 // map lookup or a call of a lookup helper (a function that does nothing but such
 // a lookup under the map lock and returns its two results).
@@ -379,6 +415,22 @@ func checkC12(c *Ctx, r *Report) {
 					}
 				}
 				pr := pruneTruth(f, okv, true)
+				if mapValuesNonNil(ops, mk) {
+					// a found entry is never nil (every value put into this map is a fresh allocation): the nil side of a
+					// defensive `exists && meta != nil` is not a path
+					var nilEdges []nilTest
+					for _, v := range []ssa.Value{old, resolveVal(old)} {
+						nilEdges = append(nilEdges, nilTestsOn(f, v)...)
+					}
+					pr = orFilter(pr, func(b *ssa.BasicBlock, si int) bool {
+						for _, nt := range nilEdges {
+							if nt.blk == b && nt.nilIdx == si {
+								return true
+							}
+						}
+						return false
+					})
+				}
 				for _, h := range append(append([]*ssa.Call{}, decE...), decS...) {
 					// no decrement without the delete: on the found side (the only side a decrement runs on) every way to
 					// the decrement passes the delete, or every way on from it does
